@@ -579,6 +579,7 @@ func c15Replies(seed int64, tier string) ([]*reply, []invocation.Invocation, uca
 func init() {
 	gens["C15"] = func(o genOpts) error {
 		replies, invs, service := c15Replies(o.seed, o.tier)
+		bset := newBytesC15(o, &replies, invs, service) // byte-level model (gen_bytes.go): further bodies, and every scripted reply
 		type panicRec struct {
 			Reply  int      `json:"reply"`
 			Label  string   `json:"label"`
@@ -606,6 +607,7 @@ func init() {
 		direct := []map[string]any{}
 		for i, rp := range replies {
 			obs := runClient(rp, invs, service)
+			bset.observe(i, rp)
 			if len(obs.Panics) > 0 {
 				pr := panicRec{Reply: i, Label: rp.Label, Panics: obs.Panics}
 				if rp.Raw != nil {
@@ -675,6 +677,9 @@ func init() {
 			}
 		}
 		if err := writeJSON(o.out, "labels.json", labels); err != nil {
+			return err
+		}
+		if err := bset.finish(o.out); err != nil {
 			return err
 		}
 		return writeJSON(o.out, "stats.json", map[string]any{"replies": len(replies), "structured_replies": structured,
